@@ -208,6 +208,9 @@ c16_sched!(c16_reader_at411_k2, quick, 4, OneWriteMultiRead, 1, 411, 2);
 c16_sched!(c16_release_at421_k2, thorough, 4, OneWriteMultiRead, 2, 421, 2);
 c16_sched!(c16_release_at424_k2, quick, 4, OneWriteMultiRead, 2, 424, 2);
 c16_sched!(c16_writer_at403_k2, quick, 4, OneWriteMultiRead, 0, 403, 2);
+c16_sched!(c16_writer_stshared_at402_k3, quick, 5, SingleThreadShared, 0, 402, 3);
+c16_sched!(c16_reader_ststrict_at411_k3, quick, 5, SingleThreadStrict, 1, 411, 3);
+c16_sched!(c16_writer_mwmr_at402_k3, quick, 5, MultiWriteMultiRead, 0, 402, 3);
 c16_sched!(c16_reader_at410_k2, quick, 4, OneWriteMultiRead, 1, 410, 2);
 c16_sched!(c16_release_at422_k2, quick, 4, OneWriteMultiRead, 2, 422, 2);
 c16_sched!(c16_release_at423_k2, quick, 4, OneWriteMultiRead, 2, 423, 2);
